@@ -50,6 +50,7 @@ struct _ctx {
     CONST const char *name;
     m_ctx_states state;
     bool quit;                              // Context's quit flag
+    bool receiving;                         // Context is handing out a batch of events: its callbacks cannot dispatch again
     uint8_t quit_code;                      // Context's quit code, returned by modules_ctx_loop()
     bool finalized;                         // Whether the context is finalized, ie: no more modules can be registered
     m_log_cb logger;                        // Context's log callback
